@@ -209,6 +209,34 @@ def run(c):
         finally:
             if srv:
                 srv.cleanup()
+        # the same monitor under a configured (restricted) cross-origin policy
+        cors_env = {"RWS_CONFIG_CORS_ALLOW_ALL": "false", "RWS_CONFIG_CORS_ALLOW_ORIGINS": "https://a.example,https://b.example", "RWS_CONFIG_CORS_ALLOW_METHODS": "GET,PUT",
+                    "RWS_CONFIG_CORS_ALLOW_HEADERS": "content-type", "RWS_CONFIG_CORS_EXPOSE_HEADERS": "etag", "RWS_CONFIG_CORS_MAX_AGE": "600", "RWS_CONFIG_CORS_ALLOW_CREDENTIALS": "true"}
+        extra = []
+        for m in ("GET", "HEAD", "OPTIONS", "POST"):
+            for origin in ("https://a.example", "https://b.example", "https://evil.example", None):
+                for pre in (False, True):
+                    for path in (f, "/nope", "/"):
+                        hs = "Host: x\r\n" + ("Origin: %s\r\n" % origin if origin else "") + ("Access-Control-Request-Method: PUT\r\nAccess-Control-Request-Headers: content-type\r\n" if pre else "")
+                        extra.append(({"route": "restricted-cors", "el": "none", "kind": "valid"}, ("%s %s HTTP/1.1\r\n%s\r\n" % (m, path, hs)).encode()))
+        sample = [x for x in inputs if "bufsize" not in x[0]][::9][:300] + extra
+        for entry in ("process", "legacy"):
+            cases = [serve.case("r%d" % i, raw, entry=entry) for i, (label, raw) in enumerate(sample)]
+            obs = core.run_cases(cases, cwd=t.root, env=cors_env)
+            for i, (label, raw) in enumerate(sample):
+                o = obs.get("r%d" % i)
+                if o is not None and o.outcome != "missing":
+                    judge(raw, dict(label, route=label["route"] + "+restricted-cors"), serve.Served(o).accepted, entry, None)
+        srv2 = server.Server(t.root, threads=2, env=cors_env)
+        try:
+            if srv2.started:
+                for label, raw in extra:
+                    data, end = srv2.request(raw)
+                    judge(raw, dict(label, route="restricted-cors"), data, "binary", None)
+            else:
+                c.inconc("server with a restricted policy did not start")
+        finally:
+            srv2.cleanup()
         c.extra["statuses_observed"] = {k: sorted(v) for k, v in observed.items()}
         first_requests_race(c, t, rng, judge, f)
     finally:
